@@ -48,8 +48,13 @@ def import_repo():
     return curtsies
 
 
+def wpath(name):
+    """scratch directory of this process for `name` (several checks may run concurrently)"""
+    return WORK / f"{name}.{os.getpid()}"
+
+
 def workdir(name):
-    d = WORK / name
+    d = wpath(name)
     if d.exists():
         shutil.rmtree(d, ignore_errors=True)
     d.mkdir(parents=True, exist_ok=True)
@@ -57,7 +62,7 @@ def workdir(name):
 
 
 def cleanup(name):
-    shutil.rmtree(WORK / name, ignore_errors=True)
+    shutil.rmtree(wpath(name), ignore_errors=True)
 
 
 STATS_RE = re.compile(r"(\d+) states generated, (\d+) distinct states found, (\d+) states left")
@@ -209,7 +214,7 @@ def judge(module, items, name, consts="", jvms=None, workers=2, timeout=1200, pe
     if jvms is None:
         jvms = max(1, min(NCPU // max(1, workers), (n + 1999) // 2000))
     jvms = max(1, min(jvms, n))
-    wd = WORK / name
+    wd = wpath(name)
     wd.mkdir(parents=True, exist_ok=True)
     bounds = [(k * n) // jvms for k in range(jvms + 1)]
     jobs = []
